@@ -1245,6 +1245,248 @@ example : subtype (.tensor 1 none) (.tensor 1 (some [.const 3])) = true
     ∧ subtype (.seq (.tensor 1 none)) (.opt (.tensor 1 none)) = false := by decide
 example : tyLe (.tensor 1 (some [.sym "unk__0", .const 2])) (stripUnk [] (.tensor 1 (some [.sym "unk__0", .const 2]))) = true := by decide
 
+/-! ### Round 10 (cont.) - values through flows; the refinement relation is a partial order -/
+
+/-- end to end -/
+theorem fitting_value_attached (Infer : InferFn)
+    (raw : Call → List (String × Option Ty) → List (String × RawVal)) (c : Call)
+    (hk : kindsOk c.sig.inputs c.args = true) (hty : anyUntyped c = false)
+    (res : List (String × Option Ty)) (hI : Infer (singleton c) = some res)
+    (tys : List (String × Option Ty)) (htys : construct Infer c = .ok tys)
+    (k : String) (hkey : k ∈ c.outKeys) (t : Ty) (hl : lookupTy k res = some t)
+    (v : RawVal) (hv : lookupRaw k (raw c tys) = some v)
+    (hfit : propCheck v.elem v.shape t = true) :
+    (k, v.digest) ∈ checkedProp (raw c tys) tys := by
+  have hc : construct Infer c =
+      .ok (c.outKeys.map (fun k => (k, (lookupTy k res).map (stripUnk c.givenNames)))) := by
+    simp [construct, hk, hty, hI]
+  rw [hc] at htys
+  injection htys with htys
+  apply checkedProp_complete (raw c tys) tys k (stripUnk c.givenNames t) v _ hv
+    (propCheck_stripUnk _ _ _ _ hfit)
+  rw [← htys]
+  simp only [List.mem_map]
+  exact ⟨k, hkey, by simp [hl]⟩
+
+theorem dimLe_trans (x y z : Dim) (h1 : dimLe x y = true) (h2 : dimLe y z = true) : dimLe x z = true := by
+  simp only [dimLe, Bool.or_eq_true, beq_iff_eq] at *
+  rcases h2 with h2 | h2
+  · exact Or.inl h2
+  · subst h2; exact h1
+
+theorem dimLe_antisymm (x y : Dim) (h1 : dimLe x y = true) (h2 : dimLe y x = true) : x = y := by
+  simp only [dimLe, Bool.or_eq_true, beq_iff_eq] at *
+  rcases h1 with h1 | h1 <;> rcases h2 with h2 | h2 <;> simp_all
+
+theorem zipAll_trans : ∀ xs ys zs : List Dim, xs.length = ys.length → ys.length = zs.length →
+    (List.zip xs ys).all (fun p => dimLe p.1 p.2) = true →
+    (List.zip ys zs).all (fun p => dimLe p.1 p.2) = true →
+    (List.zip xs zs).all (fun p => dimLe p.1 p.2) = true
+  | [], _, _, _, _, _, _ => by simp
+  | _ :: _, [], _, h, _, _, _ => by simp at h
+  | _ :: _, _ :: _, [], _, h, _, _ => by simp at h
+  | x :: xs, y :: ys, z :: zs, h1, h2, a, b => by
+    simp only [List.zip_cons_cons, List.all_cons, Bool.and_eq_true] at a b ⊢
+    simp only [List.length_cons, Nat.add_right_cancel_iff] at h1 h2
+    exact ⟨dimLe_trans x y z a.1 b.1, zipAll_trans xs ys zs h1 h2 a.2 b.2⟩
+
+theorem zipAll_antisymm : ∀ xs ys : List Dim, xs.length = ys.length →
+    (List.zip xs ys).all (fun p => dimLe p.1 p.2) = true →
+    (List.zip ys xs).all (fun p => dimLe p.1 p.2) = true → xs = ys
+  | [], [], _, _, _ => rfl
+  | [], _ :: _, h, _, _ => by simp at h
+  | _ :: _, [], h, _, _ => by simp at h
+  | x :: xs, y :: ys, h, a, b => by
+    simp only [List.zip_cons_cons, List.all_cons, Bool.and_eq_true] at a b
+    simp only [List.length_cons, Nat.add_right_cancel_iff] at h
+    rw [dimLe_antisymm x y a.1 b.1, zipAll_antisymm xs ys h a.2 b.2]
+
+/-- the oracle's refinement relation is transitive ... -/
+theorem tyLe_trans : ∀ t u w : Ty, tyLe t u = true → tyLe u w = true → tyLe t w = true
+  | .tensor e sh, .tensor e' sh', .tensor e'' sh'', h1, h2 => by
+    simp only [tyLe, Bool.and_eq_true, beq_iff_eq] at h1 h2 ⊢
+    obtain ⟨he1, hs1⟩ := h1
+    obtain ⟨he2, hs2⟩ := h2
+    refine ⟨he1.trans he2, ?_⟩
+    cases sh'' with
+    | none => rfl
+    | some zs =>
+      cases sh' with
+      | none => simp at hs2
+      | some ys =>
+        cases sh with
+        | none => simp at hs1
+        | some xs =>
+          simp only [Bool.and_eq_true, beq_iff_eq] at hs1 hs2 ⊢
+          exact ⟨hs1.1.trans hs2.1, zipAll_trans xs ys zs hs1.1 hs2.1 hs1.2 hs2.2⟩
+  | .seq t, .seq u, .seq w, h1, h2 => by
+    simp only [tyLe] at h1 h2 ⊢; exact tyLe_trans t u w h1 h2
+  | .opt t, .opt u, .opt w, h1, h2 => by
+    simp only [tyLe] at h1 h2 ⊢; exact tyLe_trans t u w h1 h2
+  | .tensor _ _, .seq _, _, h, _ => by simp [tyLe] at h
+  | .tensor _ _, .opt _, _, h, _ => by simp [tyLe] at h
+  | .seq _, .tensor _ _, _, h, _ => by simp [tyLe] at h
+  | .seq _, .opt _, _, h, _ => by simp [tyLe] at h
+  | .opt _, .tensor _ _, _, h, _ => by simp [tyLe] at h
+  | .opt _, .seq _, _, h, _ => by simp [tyLe] at h
+  | .tensor _ _, .tensor _ _, .seq _, _, h => by simp [tyLe] at h
+  | .tensor _ _, .tensor _ _, .opt _, _, h => by simp [tyLe] at h
+  | .seq _, .seq _, .tensor _ _, _, h => by simp [tyLe] at h
+  | .seq _, .seq _, .opt _, _, h => by simp [tyLe] at h
+  | .opt _, .opt _, .tensor _ _, _, h => by simp [tyLe] at h
+  | .opt _, .opt _, .seq _, _, h => by simp [tyLe] at h
+
+/-- ... and antisymmetric -/
+theorem tyLe_antisymm : ∀ t u : Ty, tyLe t u = true → tyLe u t = true → t = u
+  | .tensor e sh, .tensor e' sh', h1, h2 => by
+    simp only [tyLe, Bool.and_eq_true, beq_iff_eq] at h1 h2
+    obtain ⟨he1, hs1⟩ := h1
+    obtain ⟨_, hs2⟩ := h2
+    subst he1
+    cases sh with
+    | none =>
+      cases sh' with
+      | none => rfl
+      | some ys => simp at hs1
+    | some xs =>
+      cases sh' with
+      | none => simp at hs2
+      | some ys =>
+        simp only [Bool.and_eq_true, beq_iff_eq] at hs1 hs2
+        rw [zipAll_antisymm xs ys hs1.1 hs1.2 hs2.2]
+  | .seq t, .seq u, h1, h2 => by
+    simp only [tyLe] at h1 h2; rw [tyLe_antisymm t u h1 h2]
+  | .opt t, .opt u, h1, h2 => by
+    simp only [tyLe] at h1 h2; rw [tyLe_antisymm t u h1 h2]
+  | .tensor _ _, .seq _, h, _ => by simp [tyLe] at h
+  | .tensor _ _, .opt _, h, _ => by simp [tyLe] at h
+  | .seq _, .tensor _ _, h, _ => by simp [tyLe] at h
+  | .seq _, .opt _, h, _ => by simp [tyLe] at h
+  | .opt _, .tensor _ _, h, _ => by simp [tyLe] at h
+  | .opt _, .seq _, h, _ => by simp [tyLe] at h
+
+
+
+
+theorem attachOne_fits (raw : List (String × RawVal)) (p : String × Option Ty) :
+    (attachOne raw p).fits = true := by
+  unfold attachOne
+  cases h1 : p.2 with
+  | none => simp [VarState.fits]
+  | some t =>
+    cases h2 : lookupRaw p.1 raw with
+    | none => simp [VarState.fits]
+    | some v =>
+      by_cases hc : propCheck v.elem v.shape t = true
+      · simp [hc, VarState.fits]
+      · simp [hc, VarState.fits]
+
+theorem attachOne_ty (raw : List (String × RawVal)) (p : String × Option Ty) :
+    (attachOne raw p).ty = p.2 := by
+  unfold attachOne
+  cases h1 : p.2 with
+  | none => simp
+  | some t =>
+    cases h2 : lookupRaw p.1 raw with
+    | none => simp
+    | some v => by_cases hc : propCheck v.elem v.shape t = true <;> simp [hc]
+
+/-- the per-Var form of the attach loop agrees with `checkedProp` -/
+theorem attachOne_mem_checkedProp (raw : List (String × RawVal)) (tys : List (String × Option Ty))
+    (p : String × Option Ty) (hp : p ∈ tys) (v : RawVal) (h : (attachOne raw p).raw = some v) :
+    (p.1, v.digest) ∈ checkedProp raw tys := by
+  unfold attachOne at h
+  cases h1 : p.2 with
+  | none => simp [h1] at h
+  | some t =>
+    cases h2 : lookupRaw p.1 raw with
+    | none => simp [h1, h2] at h
+    | some w =>
+      by_cases hc : propCheck w.elem w.shape t = true
+      · simp [h1, h2, hc] at h
+        subst h
+        have hp' : (p.1, some t) ∈ tys := by rw [← h1]; exact hp
+        exact checkedProp_complete raw tys p.1 t w hp' h2 hc
+      · simp [h1, h2, hc] at h
+
+theorem stepOut_fits (st : Env × Nat) (s : Step) (c : Call) (r : Result)
+    (h : ∀ v, (st.1 v).fits = true) : ∀ v, ((stepOut st s c r).1 v).fits = true := by
+  intro v
+  cases r with
+  | error e => exact h v
+  | ok tys =>
+    simp only [stepOut]
+    split
+    · rw [List.getD_eq_getElem?_getD]
+      cases hg : (List.map (attachOne (s.backend c tys)) tys)[v - st.2]? with
+      | none => rfl
+      | some x =>
+        have hx := List.mem_of_getElem? hg
+        simp only [List.mem_map] at hx
+        obtain ⟨p, _, rfl⟩ := hx
+        simpa using attachOne_fits _ p
+    · exact h v
+
+theorem stepEnv_fits (Infer : InferFn) (st : Env × Nat) (s : Step)
+    (h : ∀ v, (st.1 v).fits = true) : ∀ v, ((stepEnv Infer st s).1.1 v).fits = true :=
+  stepOut_fits st s _ _ h
+
+/-- **flow_values_fit** (invariant of every reachable state) -/
+theorem flow_values_fit (Infer : InferFn) : ∀ (steps : List Step) (st : Env × Nat),
+    (∀ v, (st.1 v).fits = true) → ∀ v, ((runFlow Infer st steps).1.1 v).fits = true
+  | [], st, h => by simpa [runFlow] using h
+  | s :: ss, st, h => by
+    simp only [runFlow]
+    exact flow_values_fit Infer ss _ (stepEnv_fits Infer st s h)
+
+theorem runFlow_append (Infer : InferFn) : ∀ (pre post : List Step) (st : Env × Nat),
+    runFlow Infer st (pre ++ post) =
+      ((runFlow Infer (runFlow Infer st pre).1 post).1,
+       (runFlow Infer st pre).2 ++ (runFlow Infer (runFlow Infer st pre).1 post).2)
+  | [], post, st => by simp [runFlow]
+  | s :: ss, post, st => by
+    simp only [List.cons_append, runFlow]
+    rw [runFlow_append Infer ss post]
+
+theorem stepEnv_result (Infer : InferFn) (st : Env × Nat) (s : Step) :
+    (stepEnv Infer st s).2 = construct Infer (s.call st.1) := rfl
+
+theorem runFlow_length (Infer : InferFn) : ∀ (steps : List Step) (st : Env × Nat),
+    (runFlow Infer st steps).2.length = steps.length
+  | [], _ => rfl
+  | s :: ss, st => by simp [runFlow, runFlow_length Infer ss]
+
+/-- **flow_step_is_construct**: in any flow every call is answered by `construct` on the call as the
+    Vars stand at that moment -/
+theorem flow_step_is_construct (Infer : InferFn) (pre post : List Step) (s : Step) (st : Env × Nat) :
+    (runFlow Infer st (pre ++ s :: post)).2[pre.length]? =
+      some (construct Infer (s.call (runFlow Infer st pre).1.1)) := by
+  rw [runFlow_append]
+  simp only
+  rw [List.getElem?_append_right (by simp [runFlow_length])]
+  simp [runFlow_length, runFlow, stepEnv_result]
+
+
+def flowEnv0 : Env := fun v =>
+  if v = 0 then ⟨some (f32 [.const 2, .const 5]), none⟩ else ⟨some (.tensor 7 (some [.const 1])), some ⟨7, [1], "k=2"⟩⟩
+
+/-- TopK whose backend offers a fitting `Values` and an `Indices` of the wrong shape -/
+def topkStep : Step :=
+  { sig := topkSig, args := [.var 0, .var 1], attrs := [("axis", some "m1")], outVariadic := 0
+    backend := fun _ _ => [("Values", ⟨1, [2, 2], "vals"⟩), ("Indices", ⟨7, [3, 2], "idx"⟩)] }
+
+/-- then Add on the first result (rejected by this judgement: the environment stays as it is) -/
+def addStep : Step :=
+  { sig := addSig, args := [.var 10, .var 10], attrs := [], outVariadic := 0, backend := fun _ _ => [] }
+
+example : (flowEnv0 1).fits = true := by decide
+example :
+    let r := runFlow topkInfer (flowEnv0, 10) [topkStep, addStep]
+    ((r.1.1 10).ty, (r.1.1 10).raw.map (fun v => v.digest), (r.1.1 11).raw, r.1.2, r.2.length)
+      = (some (f32 [.const 2, .unk]), some "vals", none, 12, 2) := by decide
+/-- the constant fed to `K` reaches the one-node model as an initializer, by digest -/
+example : (singleton (topkStep.call flowEnv0)).inits = [("K", "k=2")] := by decide
+
 section ML
 open C06M MLOnnx
 
